@@ -17,16 +17,30 @@ def load_driver(pid):
 
 
 def evaluate(drv, cases, tag='main'):
-    """Run cases through Coq. -> (res, disagree_cases, violate_cases)"""
+    """Run cases through Coq. -> (res, disagree_cases, violate_cases).
+    A case may name its own Coq spec (case['spec'], a key of drv.SPECS);
+    cases are grouped by spec and the results merged."""
+    total = dict(n=0, disagree=[], violate=[], nontrivial=0, errors=[])
     if not cases:
-        return dict(n=0, disagree=[], violate=[], nontrivial=0, errors=[]), \
-            [], []
-    res = core.coq_eval(drv.PID, drv.SPEC,
-                        [(c['cin'], c['cobs']) for c in cases],
-                        chunk=getattr(drv, 'CHUNK', 300), tag=tag)
-    dis = [cases[i] for i in res['disagree']]
-    vio = [cases[i] for i in res['violate']]
-    return res, dis, vio
+        return total, [], []
+    groups = {}
+    for i, c in enumerate(cases):
+        groups.setdefault(c.get('spec'), []).append(i)
+    dis, vio = [], []
+    for name, idxs in groups.items():
+        spec = drv.SPEC if name is None else drv.SPECS[name]
+        res = core.coq_eval(drv.PID, spec,
+                            [(cases[i]['cin'], cases[i]['cobs']) for i in idxs],
+                            chunk=getattr(drv, 'CHUNK', 300),
+                            tag='%s_%s' % (tag, name or 'seq'))
+        total['n'] += res['n']
+        total['nontrivial'] += res['nontrivial']
+        total['errors'] += res['errors']
+        total['disagree'] += [idxs[k] for k in res['disagree']]
+        total['violate'] += [idxs[k] for k in res['violate']]
+    dis = [cases[i] for i in sorted(total['disagree'])]
+    vio = [cases[i] for i in sorted(total['violate'])]
+    return total, dis, vio
 
 
 def main(argv=None):
